@@ -1,4 +1,5 @@
 """C37 Exhaustive simulation covers every distinct schedule (engine E9 Sim)."""
+from props import sim_e2e
 from props.C36 import SimSpec
 from tools import sim, vlib
 
@@ -17,7 +18,12 @@ EXPLANATION = (
     "the set the Coq model reaches by brute force over all decision strings, and with an independently enumerated "
     "set of demanded schedules (spec_outcomes / spec_tick_outcomes in Sim/Exh.v); (2) uniqueness of the decision string "
     "(no duplicate schedule) for keyed hooks and run_hooks as a theorem - only the bounded comparison of execution counts; "
-    "(3) the scheduler model is tied to LaunchedSim::step only through end-to-end outcome sets; TopLevel*/inline hooks.")
+    "(3) TopLevel*/inline hooks have only partial completeness theorems. End-to-end tie: small Hydro programs (one tick/one "
+    "hook TotalOrder and NoOrder, two independent ticks, one tick with two hooks) are compiled by the real pipeline "
+    "(FlowBuilder -> sim() -> trybuild dylib, cached) and run under CompiledSim::exhaustive; the set of outcomes AND the "
+    "number of executions must equal those of the Coq model of the scheduler loop (choice among ready ticks) around "
+    "run_hooks (+ in-tick shuffle), and contain the independently enumerated demanded outcomes (compositions / ordered "
+    "set partitions).")
 
 
 def legit(h, force):
@@ -199,6 +205,15 @@ def main(ctx):
     def fin(c, level, coverage, assumptions, extra=None):
         coverage["explanation"] = EXPLANATION
         coverage["exhaustive"] = False
+        # end-to-end phase: real compiled simulations under the real exhaustive driver
+        if not c.replay:
+            summary, bad = sim_e2e.run_exhaustive(c)
+            coverage.update(summary)
+            for case, res, v in bad[:2]:
+                path = vlib.write_replay(c, {"property": c.prop, "kind": "e2e outcome set / execution count differs"
+                                             if v & 1 and not v & 2 else "e2e demanded outcome missing",
+                                             "case": case, "impl": res, "verdict": v})
+                c.violations.append((path, "" if v & 2 else "no-failing-input-found"))
         return orig(c, level, coverage, assumptions, extra)
 
     vlib.finish = fin
